@@ -1,6 +1,6 @@
 (** The table theorem of C11, re-checked on every run against the table that
     tools/routes extracts from the current source (coq/Gen/Routes.v). *)
-From AGH Require Import Base.Run Model.AuthHttp Proofs.AuthHttp Gen.Routes.
+From AGH Require Import Base.Run Model.AuthHttp Proofs.AuthHttp Proofs.AuthCreds Gen.Routes.
 
 Definition gen_table_ok : bool :=
   table_ok Gen.Routes.routes Gen.Routes.reg_empty Gen.Routes.reg_method
@@ -22,4 +22,18 @@ Proof. vm_compute. reflexivity. Qed.
 
 (** The start-up glue as tools/routes reads it off the current source. *)
 Lemma startup_code_ok : boot_code_ok Gen.Routes.startup = true.
+Proof. vm_compute. reflexivity. Qed.
+
+(** Round 3: in every route of the table that is not a listed exception, only
+    method-blind wrappers (postInstall, preInstall, gzip, limitRequestBody)
+    stand in front of optionalAuth: the refusal cannot depend on the method
+    or on a header (Proofs/AuthCreds.v [refusal_method_header_independent]). *)
+Definition route_blind (rm : list wrapper) (rt : route) : bool :=
+  exception rt || blind_before_auth (chain_of rm rt).
+
+Definition gen_not_blind : list (bytes * bytes) :=
+  map (fun rt => (rt_pattern rt, rt_pos rt))
+      (List.filter (fun rt => negb (route_blind Gen.Routes.reg_method rt)) Gen.Routes.routes).
+
+Lemma all_routes_blind : forallb (route_blind Gen.Routes.reg_method) Gen.Routes.routes = true.
 Proof. vm_compute. reflexivity. Qed.
